@@ -19,7 +19,7 @@ import (
 
 func init() {
 	register(&Prop{ID: "C12", Gen: genC12, Oracle: oracleC12,
-		Rule: "real archives written with archive/zip (raw headers, so declared sizes may disagree with the content): entry names = module prefix (correct, wrong, case-varied, missing) + paths from C17's pools and escapes (.., ../x, /abs, a\\b, empty, trailing /, duplicates, file-vs-directory, unicode, 300-byte names, go.mod placements, the 22 reserved Windows device names in every letter case with chains of 0-3 dot-separated suffixes as file / directory element / directory entry at depths 0-3 and their near misses); declared sizes honest, off by one, at 16MiB+-1, 500MiB+-1, 2^32, 2^63, 2^64-1; target directory missing / empty / non-empty / a file; sparse archive files above the size limit; non-trivial = every case; distinct by op line"})
+		Rule: "real archives written with archive/zip (raw headers, so declared sizes may disagree with the content): entry names = module prefix (correct, wrong, case-varied, missing) + paths from C17's pools and escapes (.., ../x, /abs, a\\b, empty, trailing /, duplicates, file-vs-directory, unicode, 300-byte names, go.mod placements, the 22 reserved Windows device names in every letter case with chains of 0-3 dot-separated suffixes as file / directory element / directory entry at depths 0-3 and their near misses); declared sizes honest, off by one, at 16MiB+-1, 500MiB+-1, 2^32, 2^63, 2^64-1; target directory missing / empty / non-empty / a file, given by a plain path (op zip.unzip) or (op zip.unzipat) with a trailing slash, through a symbolic link as final path element (relative, absolute, chain of two, followed by a slash; dangling in the oracle only), below a symlinked parent, the non-empty directory holding a file / a subdirectory / a go.mod / a symbolic link to a directory outside the target named like the first directory of the archive / a dangling link; sparse archive files above the size limit; non-trivial = every case; distinct by op line"})
 }
 
 // osLimits: also use path elements longer than NAME_MAX (the model knows no operating-system limits).
@@ -353,6 +353,13 @@ func genC12(g *Gen, n int) {
 		g.Emit("zip.checkzip "+hx("example.com/m")+" "+hx("v1.0.0")+" 0 "+tok, true, "reserved-dotted")
 		g.Emit("zip.unzip "+hx("example.com/m")+" "+hx("v1.0.0")+" 0 m "+tok, true, "reserved-dotted")
 	}
+	// every modelled shape of the target argument (util_c12target.go) against four small archives
+	for _, es := range c12ShapeArchives() {
+		tok := zipuEntriesTok(es)
+		for _, shape := range c12ModelledShapes() {
+			g.Emit("zip.unzipat "+hx("example.com/m")+" "+hx("v1.0.0")+" 0 "+shape+" "+tok, true, "target-shape", "target-via-"+shape[:1])
+		}
+	}
 	// the archive-size limit is checked before the archive is opened: sparse files
 	g.Emit("zip.checkzip "+hx("example.com/m")+" "+hx("v1.0.0")+" "+itoa(zipu500M+1)+" _", true, "zipsize")
 	g.Emit("zip.unzip "+hx("example.com/m")+" "+hx("v1.0.0")+" "+itoa(zipu500M+1)+" m _", true, "zipsize")
@@ -373,20 +380,59 @@ func genC12(g *Gen, n int) {
 		case 4:
 			t = "f"
 		}
+		if g.Chance(12) {
+			shape := c12RandShape(g.Rand, true)
+			g.Emit("zip.unzipat "+hx(mp)+" "+hx(mv)+" 0 "+shape+" "+tok, true, "unzipat-"+shape[:2])
+			continue
+		}
 		g.Emit("zip.unzip "+hx(mp)+" "+hx(mv)+" 0 "+t+" "+tok, true, "unzip-"+t)
 	}
 }
 
 // c12Check runs CheckZip and Unzip on one archive and checks every clause of the property.
-func c12Check(g *Gen, m module.Version, es []zipuEntry, target byte, line string) {
+//
+// shape says how the target argument is given and what it denotes: a one-letter token is a plain path in one of the
+// historic states (m missing, e empty directory, n directory with one file, f regular file); longer tokens are the
+// shapes of util_c12target.go (trailing slash, symbolic link as the final element, chain of links, symlinked parent;
+// dangling link; non-empty through a subdirectory / a symbolic link leading elsewhere / ...). "The target directory"
+// is the directory the argument denotes, so for a link it is the link's destination.
+func c12Check(g *Gen, m module.Version, es []zipuEntry, shape string, line string) {
+	sh := c12ParseShape(shape)
+	target := sh.state
 	zipuWithArchive(0, es, func(tmp, zp string) string {
 		cf, cerr := modzip.CheckZip(m, zp)
-		o := zipuUnzip(tmp, zp, m, target)
+		var o zipuUnzipObs
+		changedInside := 0
+		if len(shape) == 1 {
+			o = zipuUnzip(tmp, zp, m, target)
+			changedInside = len(o.files) + len(o.dirs)
+		} else {
+			so := c12UnzipShape(tmp, zp, m, es, shape)
+			if so.setupErr != nil {
+				g.Case("harness-setup-failed")
+				return ""
+			}
+			o, changedInside = so.zipuUnzipObs, so.inside
+			g.Case("shape-" + string(sh.via) + string(sh.state))
+		}
 		// nothing is ever created outside the target directory, success or failure
 		g.Case("confined")
 		if len(o.outside) != 0 {
 			g.Fail("C12 confined: Unzip created or changed something outside the target directory", strings.Join(o.outside, ","), line)
 			return ""
+		}
+		if target == 'n' {
+			// a target that exists and is not empty is refused — whatever it holds (file, subdirectory, symbolic link)
+			// and however the argument reaches it — and nothing is written into it
+			g.Case("nonempty-refused")
+			if o.err == nil {
+				g.Fail("C12 non-empty target: Unzip did not refuse a target directory that exists and is not empty", "shape="+shape, line)
+				return ""
+			}
+			if changedInside != 0 {
+				g.Fail("C12 non-empty target: Unzip wrote into a target directory that exists and is not empty", "shape="+shape, line)
+				return ""
+			}
 		}
 		honest := true
 		for _, e := range es {
@@ -403,7 +449,7 @@ func c12Check(g *Gen, m module.Version, es []zipuEntry, target byte, line string
 			}
 			return ""
 		}
-		if honest && (target == 'm' || target == 'e') {
+		if honest && (target == 'm' || target == 'e') && !sh.dangling() {
 			// extraction succeeds exactly when the zip check accepts
 			g.Case("ok-iff-checkzip")
 			if (o.err == nil) != accepted {
@@ -530,19 +576,30 @@ func c12Check(g *Gen, m module.Version, es []zipuEntry, target byte, line string
 func oracleC12(g *Gen, n int) {
 	for _, es := range append(append(c12HugeSizes(), c12ModeBits()...), c12FoldAndOrder()...) {
 		m := module.Version{Path: "example.com/m", Version: "v1.0.0"}
-		t := "me"[g.Intn(2)]
-		c12Check(g, m, es, t, "zip.unzip "+hx(m.Path)+" "+hx(m.Version)+" 0 "+string(t)+" "+zipuEntriesTok(es))
+		t := string("me"[g.Intn(2)])
+		c12Check(g, m, es, t, "zip.unzip "+hx(m.Path)+" "+hx(m.Version)+" 0 "+t+" "+zipuEntriesTok(es))
 	}
 	for _, es := range c12ReservedSweep(g.Rand) {
 		m := module.Version{Path: "example.com/m", Version: "v1.0.0"}
 		g.Case("reserved-dotted")
-		c12Check(g, m, es, 'm', "zip.unzip "+hx(m.Path)+" "+hx(m.Version)+" 0 m "+zipuEntriesTok(es))
+		c12Check(g, m, es, "m", "zip.unzip "+hx(m.Path)+" "+hx(m.Version)+" 0 m "+zipuEntriesTok(es))
+	}
+	// every shape of the target argument (util_c12target.go) against four small archives
+	for _, es := range c12ShapeArchives() {
+		m := module.Version{Path: "example.com/m", Version: "v1.0.0"}
+		for _, shape := range c12AllShapes() {
+			c12Check(g, m, es, shape, "zip.unzipat "+hx(m.Path)+" "+hx(m.Version)+" 0 "+shape+" "+zipuEntriesTok(es))
+		}
 	}
 	for i := 0; i < n; i++ {
 		mp, mv := zipuPickMod(g.Rand, 4)
 		es := c12GenEntries(g.Rand, mp, mv, true)
-		t := "mmmmmmeeenf"[g.Intn(11)]
-		line := "zip.unzip " + hx(mp) + " " + hx(mv) + " 0 " + string(t) + " " + zipuEntriesTok(es)
+		t := string("mmmmmmeeenf"[g.Intn(11)])
+		op := "zip.unzip "
+		if g.Chance(25) {
+			t, op = c12RandShape(g.Rand, false), "zip.unzipat "
+		}
+		line := op + hx(mp) + " " + hx(mv) + " 0 " + t + " " + zipuEntriesTok(es)
 		c12Check(g, module.Version{Path: mp, Version: mv}, es, t, line)
 	}
 	// honest contents at the 16 MiB boundary (too large for an op line; checked on the implementation only)
@@ -554,7 +611,7 @@ func oracleC12(g *Gen, n int) {
 				copy(c, "module example.com/m\n")
 				es := []zipuEntry{{name: m.Path + "@" + m.Version + "/" + name, decl: uint64(sz), content: c}, {name: m.Path + "@" + m.Version + "/a.go", decl: 1, content: []byte("a")}}
 				g.Case("boundary-16MiB")
-				c12Check(g, m, es, 'm', "(16MiB boundary) entry "+name+" size "+itoa(sz))
+				c12Check(g, m, es, "m", "(16MiB boundary) entry "+name+" size "+itoa(sz))
 			}
 		}
 	}
